@@ -111,6 +111,35 @@ def main():
                 "  | TSyntaxError, XParseError => true\n  | TUnit PMixed, _ => true\n  | _, XOutside => true\n  | _, _ => false end.\n")
         for k in range(0, len(titems), sh):
             files[f"Run_textparse_{k // sh}"] = thdr + f"Definition cases : list (str * expected) := {clist(titems[k:k + sh])}.\nDefinition mm := Eval vm_compute in mismatches text_case_ok cases.\nPrint mm.\nLemma run_agrees : mm = [].\nProof. reflexivity. Qed.\n"
+        # Quantity.parse: the magnitude's type and (for ints) value, the unit, or the exception class
+        qitems, seen_q = [], set()
+        for cs, x in zip(cases[nstruct:], r[nstruct:]):
+            text = cs["s"]
+            if cs["op"] != "parse_quantity" or len(text) > 80 or text in seen_q or re.search(r"[0-9⁰¹²³⁴-⁹]{300,}", text): continue
+            seen_q.add(text)
+            if "err" in x:
+                if x["err"] not in ("KeyError", "ParseError"): continue
+                exp = "QXKeyError" if x["err"] == "KeyError" else "QXParseError"
+            elif not C13.exact(x["u"]): exp = "QXOutside"
+            elif x["m"][0] == "int" and len(x["m"]) == 3: exp = f"(QXInt {cZ(int(x['m'][1]))} {cunit3(x['u'])})"
+            elif x["m"][0] == "float": exp = f"(QXFloat {cunit3(x['u'])})"
+            else: continue
+            qitems.append(f"({C13.cstr(text)}, {exp})")
+        # long numerals: more than 4300 digits are refused by int()
+        for n_ in (20, 400, 4300, 4301, 4400):
+            text = "9" * n_ + " m"
+            x = C13.parse_worker({"cases": [{"op": "parse_quantity", "s": text}]})["results"][0]
+            if "err" in x: qitems.append(f"({C13.cstr(text)}, {'QXParseError' if x['err'] == 'ParseError' else 'QXKeyError'})")
+            elif x["m"][0] == "int": qitems.append(f"({C13.cstr(text)}, (QXInt {cZ(int(x['m'][1]))} {cunit3(x['u'])}))")
+        qhdr = (C13.PHEADER + pdefs + td + "Inductive qexpected := QXInt (z : Z) (u : unit3) | QXFloat (u : unit3) | QXKeyError | QXParseError | QXOutside.\n"
+                "Definition q_case_ok (c : str * qexpected) : bool :=\n"
+                "  match quantity_parse_text NM QN tab lex_order lex_ignore lr_rules rule_infos filtered lr_terminals end_sym T_quantity (fst c), snd c with\n"
+                "  | QOk (MInt z) (POk u), QXInt z' v => Z.eqb z z' && unit3_eqb u v\n  | QOk (MFloat _) (POk u), QXFloat v => unit3_eqb u v\n"
+                "  | QOk _ PKeyError, QXKeyError => true\n  | QOk _ PFrac, QXParseError => true\n  | QSyntaxError, QXParseError => true\n"
+                "  | QOk _ PMixed, _ => true\n  | _, QXOutside => true\n  | _, _ => false end.\n")
+        for k in range(0, len(qitems), sh):
+            files[f"Run_textq_{k // sh}"] = qhdr + f"Definition cases : list (str * qexpected) := {clist(qitems[k:k + sh])}.\nDefinition mm := Eval vm_compute in mismatches q_case_ok cases.\nPrint mm.\nLemma run_agrees : mm = [].\nProof. reflexivity. Qed.\n"
+        c.cov["text_pipeline_quantity_cases"] = len(qitems)
         c.cov["text_pipeline_cases"] = len(titems)
     except lexgen.Untranslatable as ex:
         c.oblige("lexgen.parser_defs (translator of the shipped parser for the text-level pipeline)", False, f"untranslatable: {ex}")
@@ -118,10 +147,11 @@ def main():
     for n, (ok, log) in sorted(out.items()):
         mm = re.search(r"mm =\s*(\[[^\]]*\])", log, re.S)
         bad = [int(t) for t in re.findall(r"\d+", mm.group(1))] if mm else None
-        what = ("character-level pipeline model (scanner, LALR driver, transformer, evaluation) = Unit.parse on the texts: the unit, KeyError or ParseError" if "textparse" in n
+        what = ("character-level pipeline model = Quantity.parse on the texts: magnitude type, integer value, unit, or KeyError / ParseError" if "textq" in n else
+                "character-level pipeline model (scanner, LALR driver, transformer, evaluation) = Unit.parse on the texts: the unit, KeyError or ParseError" if "textparse" in n
                 else "transformer model = Unit.parse on structured term sequences: the unit, or KeyError")
         c.oblige(f"{n}.run_agrees ({what})", ok and bad == [], f"mismatching {bad[:6] if bad else ''} {log[-400:]}")
-        if bad and "textparse" not in n:
+        if bad and "text" not in n:
             base = int(n.split("_")[-1]) * sh
             for j in bad[:3]:
                 c.cov.setdefault("model_impl_mismatches", []).append({"text": structured[base + j][2], "impl": r[base + j]})
